@@ -19,3 +19,6 @@ open Cherab.Props.C06
 #print axioms misrouted_add_never_updates_own_family
 #print axioms dropped_root_escapes
 #print axioms idealTables_wellFormed
+#print axioms prep_id_of_lower_classes
+#print axioms prep_id_of_tables
+#print axioms pec_mixed_case_class_reads_other_entry
